@@ -139,7 +139,11 @@ pub struct ReplayFile {
 }
 
 pub fn replay_path(property: &str, seed: u64, run: u64, suffix: &str) -> PathBuf {
-    let d = verif_dir().join("replays");
+    let d = if repo_dir() == std::path::Path::new("/repo") {
+        verif_dir().join("replays")
+    } else {
+        PathBuf::from(std::env::var("VERIF_BUILD").unwrap_or_else(|_| "/tmp".into())).join("replays")
+    };
     let _ = std::fs::create_dir_all(&d);
     d.join(format!("{property}-{seed}-{run}{suffix}.json"))
 }
@@ -246,7 +250,13 @@ pub fn write_evidence(e: EvidenceInput) {
         "wall_s": (e.wall_s * 1000.0).round() / 1000.0,
         "violations": e.violations,
     });
-    let d = verif_dir().join("evidence");
+    // evidence under /verif/evidence describes /repo itself; runs against a scratch tree
+    // (sensitivity runs with VERIF_REPO set) write theirs next to that tree's build output
+    let d = if repo_dir() == std::path::Path::new("/repo") {
+        verif_dir().join("evidence")
+    } else {
+        PathBuf::from(std::env::var("VERIF_BUILD").unwrap_or_else(|_| "/tmp".into())).join("evidence")
+    };
     let _ = std::fs::create_dir_all(&d);
     if let Err(err) = write_json(&d.join(format!("{}.json", e.property)), &ev) {
         eprintln!("harness error: cannot write evidence: {err}");
